@@ -55,7 +55,7 @@ def vectors_A():
     return out
 
 
-def eval_pair(case):
+def _eval_pair(case):
     a_v, b_v = tuple(case[0]), tuple(case[1])
     v = []
 
@@ -162,6 +162,18 @@ def eval_pair(case):
     nontriv = (a_v, b_v) if (any(a_v) and any(b_v)) else None
     out = ('lt' if neg_ba == [] else '') + ('gt' if neg_ab == [] else '') + ('neg' if neg_ab else '')
     return {'v': v, 'nt': nontriv, 'out': out or 'incomparable'}
+
+
+def eval_pair(case):
+    """any exception out of an operator, comparison or reporting method is a verdict, not a harness failure"""
+    try:
+        return _eval_pair(case)
+    except Exception as e:
+        import traceback
+        tb = traceback.extract_tb(e.__traceback__)
+        where = next((f.name for f in reversed(tb) if 'capacities_labels' in f.filename), '?')
+        return {'v': [(f'raises/{where}/{type(e).__name__}', f'{type(e).__name__}: {e} in {where} for a={list(case[0])} b={list(case[1])}')],
+                'nt': (tuple(case[0]), tuple(case[1])), 'out': 'raise'}
 
 
 def eval_triple(case):
